@@ -645,6 +645,13 @@ func RunProperty(w *World, pd *propDef, tier, verifDir string) *R {
 			fns = append(fns, fn)
 		}
 	}
+	for _, fn := range r.Anchors {
+		fn = rootFn(fn)
+		if !seen[fn] {
+			seen[fn] = true
+			fns = append(fns, fn)
+		}
+	}
 	// a failing obligation may sit in a helper that was split off from an anchored function: its callers are
 	// normalised too, so that the helper's body is judged where it runs
 	failFns := map[*ssa.Function]bool{}
